@@ -2,10 +2,22 @@
    Proved: the barycentric weights (ratios of orientation determinants) sum to 1, reproduce the query point, and are all
    non-negative exactly for points of the closed counter-clockwise face; the exact classification of the query point and the
    conflict region (faces whose circumcircle strictly contains it) used by the checker are exactly their statements.
-   NOT proved: Sibson's identity for the natural-neighbour weights; the returned weights are decided per query (neighbour set
+   Natural-neighbour identification (task M7, Query/NatNeighbor.v tied to interpolation.rs by index-exact correspondence of the vertex
+   sequences): for every answer of the locate model in a well-formed counter-clockwise triangulation the simulated insertion returns a
+   closed ring of directed edges (to(e_i) = from(e_{i+1})), every face on the left of the ring is in the conflict region, every face on
+   its right is not, every ring vertex is a natural neighbour of the specification (C19_natural_neighbor_ring); in a Delaunay
+   triangulation the ring is counter-clockwise around a query strictly inside the hull (C19_natural_neighbor_ring_ccw); the vertices
+   reported by get_weights are the origins of the ring in ring order (C19_nn_weight_vertices), those of Barycentric::get_weights the
+   vertices of the located element (C19_bary_weight_vertices).
+   The faces entered by the simulated insertion form a region of conflict faces that is closed under crossing into a neighbouring
+   conflict face (C19_nn_region_closed); IF every conflict face can be reached from the located face through conflict faces, the set of
+   ring vertices is exactly natural_neighbours q (C19_ring_vertices_eq_natural_neighbours_face / _edge: conditional).
+   NOT proved: that connectedness hypothesis (it follows from the Delaunay property; out of reach here); Sibson's identity for the natural-neighbour weights; the returned weights are decided per query (neighbour set
    exactly, non-negativity / sum / reproduction within a tolerance, on well-conditioned faces). *)
 From Coq Require Import ZArith List Bool Arith.
-From SpadeV Require Import Geom.Pred Obs.State Obs.Spec Obs.SpecProp Query.Voronoi Query.ViewProp Query.ViewProofs.
+From SpadeV Require Import Geom.Pred Obs.State Obs.Spec Obs.SpecProp Query.Voronoi Query.ViewProp Query.ViewProofs
+  Dcel.Raw Dcel.WfCore Dcel.ProofsFlip Tri.Legalize Tri.LegalizeProofs Tri.Insert Tri.Locate Tri.LocateProofs Tri.LineIter Query.NatNeighbor Query.NatNeighborProofs Query.NatNeighborRegionProofs.
+Import ListNotations.
 Local Open Scope Z_scope.
 
 Theorem C19_barycentric_identity : forall (a b c q : pnt),
@@ -18,9 +30,99 @@ Theorem C19_conflict_region : forall s pts q f, In f (conflict_faces s pts q) <-
 Proof. exact conflict_faces_spec. Qed.
 Theorem C19_point_classification : forall s pts q, ClassifySpec s pts q (classify_point s pts q).
 Proof. exact classify_point_spec. Qed.
+
+Theorem C19_natural_neighbor_ring : forall pts fuel d q closest loc l,
+  DWf d -> FacesCcw (obs_of_dcel d) pts ->
+  lstart_of_lres (locate_from_closest pts d q closest) = Some loc ->
+  natural_neighbor_edges pts fuel d q loc = Some l ->
+  match loc with
+  | LsVertex v => exists e, l = [e] /\ vpos pts v = q
+  | LsEdge e =>
+      if is_outer d e || is_outer d (e_rev e) then l = [e; e_rev e]
+      else closed_ring d l /\ (4 <= length l)%nat /\
+           forall x, In x l ->
+             In (e_face d x) (conflict_faces (obs_of_dcel d) pts q) /\
+             ~ In (e_face d (e_rev x)) (conflict_faces (obs_of_dcel d) pts q) /\
+             In (e_origin d x) (natural_neighbours (obs_of_dcel d) pts q)
+  | LsFace f =>
+      closed_ring d l /\ (3 <= length l)%nat /\
+      forall x, In x l ->
+        In (e_face d x) (conflict_faces (obs_of_dcel d) pts q) /\
+        ~ In (e_face d (e_rev x)) (conflict_faces (obs_of_dcel d) pts q) /\
+        In (e_origin d x) (natural_neighbours (obs_of_dcel d) pts q)
+  | _ => l = []
+  end.
+Proof. exact nn_ring_of_locate_partial. Qed.
+
+Theorem C19_natural_neighbor_ring_ccw : forall pts fuel d q closest loc l,
+  DWf d -> FacesCcw (obs_of_dcel d) pts -> Delaunay (obs_of_dcel d) pts ->
+  (forall e, (e < length (d_hedges d))%nat -> outer d e -> osd pts d q e < 0) ->
+  lstart_of_lres (locate_from_closest pts d q closest) = Some loc ->
+  (match loc with LsFace _ => True | LsEdge e => inner d e /\ inner d (e_rev e) | _ => False end) ->
+  natural_neighbor_edges pts fuel d q loc = Some l ->
+  closed_ring d l /\
+  forall x, In x l -> 0 < orient (vpos pts (e_origin d x)) (vpos pts (e_to d x)) q.
+Proof. exact nn_ring_ccw_of_locate. Qed.
+
+Theorem C19_closed_ring_chained : forall d l, closed_ring d l ->
+  chained d l /\ e_to d (last l 0%nat) = e_origin d (hd 0%nat l).
+Proof. exact closed_ring_chained. Qed.
+
+Theorem C19_nn_weight_vertices : forall pts fuel d q loc vs,
+  nn_weight_vertices pts fuel d q loc = Some vs ->
+  exists l, natural_neighbor_edges pts fuel d q loc = Some l /\
+            (vs = map (e_origin d) l \/ (length l = 1%nat /\ num_directed_edges d = 0%nat /\ vs = [0%nat])).
+Proof. exact nn_weight_vertices_origins. Qed.
+
+Theorem C19_bary_weight_vertices : forall d loc vs,
+  DW d -> bary_weight_vertices d loc = Some vs ->
+  match loc with
+  | LsVertex v => vs = [v]
+  | LsEdge e => vs = [org (obs_of_dcel d) e; dest (obs_of_dcel d) e]
+  | LsFace f => (f < length (d_faces d))%nat -> f <> 0%nat ->
+                length vs = 3%nat /\ forall v, In v vs <-> In v (face_vertices (obs_of_dcel d) f)
+  | _ => vs = []
+  end.
+Proof. exact bary_weight_vertices_spec. Qed.
+
+Theorem C19_nn_region_closed : forall pts d q start l fl,
+  DW d -> RegionOf pts d q start l fl ->
+  (forall e, In e fl -> In (e_face d e) (conflict_faces (obs_of_dcel d) pts q)) /\
+  (forall x, (x < length (d_hedges d))%nat -> in_region d start fl (e_face d x) ->
+     In (e_face d (e_rev x)) (conflict_faces (obs_of_dcel d) pts q) -> in_region d start fl (e_face d (e_rev x))).
+Proof. exact nn_region_closed. Qed.
+
+Theorem C19_nn_region_exists_face : forall pts fuel d q f l,
+  DW d -> EdgesCcw pts d -> LocFace pts d q f ->
+  natural_neighbor_edges pts fuel d q (LsFace f) = Some l ->
+  exists fl, RegionOf pts d q (eq f) l fl.
+Proof. exact nn_region_face. Qed.
+
+Theorem C19_ring_vertices_eq_natural_neighbours_face : forall pts fuel d q f l,
+  DW d -> EdgesCcw pts d -> LocFace pts d q f ->
+  natural_neighbor_edges pts fuel d q (LsFace f) = Some l ->
+  (forall F, In F (conflict_faces (obs_of_dcel d) pts q) -> conflict_reach pts d q (eq f) F) ->
+  forall v, In v (map (e_origin d) l) <-> In v (natural_neighbours (obs_of_dcel d) pts q).
+Proof. exact nn_ring_vertices_eq_natural_face_partial. Qed.
+
+Theorem C19_ring_vertices_eq_natural_neighbours_edge : forall pts fuel d q e l,
+  DW d -> EdgesCcw pts d -> LocEdge pts d q e -> inner d e -> inner d (e_rev e) ->
+  natural_neighbor_edges pts fuel d q (LsEdge e) = Some l ->
+  (forall F, In F (conflict_faces (obs_of_dcel d) pts q) -> conflict_reach pts d q (eq (e_face d e)) F) ->
+  forall v, In v (map (e_origin d) l) <-> In v (natural_neighbours (obs_of_dcel d) pts q).
+Proof. exact nn_ring_vertices_eq_natural_edge_partial. Qed.
 Check barycentric_weights_Q.
 Check barycentric_nonneg_iff_inside.
 
 Print Assumptions C19_barycentric_identity.
 Print Assumptions C19_conflict_region.
 Print Assumptions C19_point_classification.
+Print Assumptions C19_natural_neighbor_ring.
+Print Assumptions C19_natural_neighbor_ring_ccw.
+Print Assumptions C19_closed_ring_chained.
+Print Assumptions C19_nn_weight_vertices.
+Print Assumptions C19_bary_weight_vertices.
+Print Assumptions C19_nn_region_closed.
+Print Assumptions C19_nn_region_exists_face.
+Print Assumptions C19_ring_vertices_eq_natural_neighbours_face.
+Print Assumptions C19_ring_vertices_eq_natural_neighbours_edge.
